@@ -411,6 +411,8 @@ class Machine:
             return RStr(c[1])
         if k == "unit":
             return UNIT
+        if k == "bytes":
+            return SliceRef(list(c[1]))
         if k == "char":
             return ord(c[1]) if len(c[1]) == 1 else c[1]      # chars are carried as their scalar value
         if k == "zst":
